@@ -18,11 +18,11 @@ ROOTS = ("ov_backoff",)
 def parse_state(tok):
     i, rest = tok.split("=", 1)
     nums, errs, sleep, times, cfgs, types, text = rest.split("|")
-    mx, total, excl, errnum, ctx, vrs, kil, ttimes = [int(x) for x in nums.split(",")]
+    mx, total, excl, errnum, ctx, vrs, kil, ttimes, keep = ([int(x) for x in nums.split(",")] + [0])[:9]
     dm = lambda s: {int(k): int(v) for k, v in (e.split(":") for e in s.split(".") if e)}
     li = lambda s: [int(x) for x in s.split(".") if x != ""]
     return int(i), dict(max=mx, total=total, excl=excl, errnum=errnum, errs=li(errs), sleep=dm(sleep), times=dm(times),
-                        cfgs=li(cfgs), types=li(types), ctx=ctx, vars=vrs, killed=kil, ttimes=ttimes, text=text)
+                        cfgs=li(cfgs), types=li(types), ctx=ctx, vars=vrs, killed=kil, ttimes=ttimes, keep=keep, text=text)
 
 
 COUNTERS = ("total", "excl", "errnum", "errs", "sleep", "times", "cfgs")
@@ -70,7 +70,7 @@ def oracles(cfgs0, sq, stats):
     fails = []
     cfgs = {k: dict(v) for k, v in cfgs0.items()}     # SetErrors / SetBackoffFnCfg change it during the sequence
     capmax = max([c["cap"] for c in cfgs.values()] + [1000])
-    ghost, stale = {}, set()
+    ghost, stale, keepf = {}, set(), {}
     st, parent, ctx_of, vars_of, noop, fn = {}, {}, {}, {}, {}, {}
     ctx_parent, ctx_done, killed = [], [], {0: 0}
     nvars, merged_seen, resetmax_seen = 1, False, False
@@ -130,7 +130,7 @@ def oracles(cfgs0, sq, stats):
             ghost[i] = budget_hi(states[i]["max"])
         elif op in ("F", "C"):
             src, i = args[0], len(parent)
-            noop[i] = False; vars_of[i] = vars_of[src]; ghost[i] = ghost[src]
+            noop[i] = False; vars_of[i] = vars_of[src]; ghost[i] = ghost[src]; keepf[i] = keepf.get(src, 0)
             if op == "F":
                 parent[i] = src; ctx_parent.append(ctx_of[src]); ctx_done.append(False); ctx_of[i] = len(ctx_parent) - 1
             else:
@@ -141,6 +141,10 @@ def oracles(cfgs0, sq, stats):
                 bad("C20_fork_clone_start", k, "new back-offer does not start from the parent's accounting (or the parent changed)")
         elif op == "X":
             ctx_done[args[0]] = True
+        elif op == "KG":
+            keepf[args[0]] = 1
+            if not same(states[args[0]], st[args[0]]):
+                bad("C20_accounting", k, "KeepGoingWhenKilled changed the accounting")
         elif op == "SE":
             cfgs[args[0]]["err"] = args[1]
         elif op == "SF":
@@ -190,6 +194,8 @@ def oracles(cfgs0, sq, stats):
             name = c["name"]
             is_ex = name in sq.excl
             canc, kl = cancelled(ctx_of[i]), (killed.get(vars_of[i], 0) if vars_of[i] is not None else 0)
+            if keepf.get(i, 0):
+                kl = 0            # KeepGoingWhenKilled: the kill flag does not end a back-off (C20_cancel_kill_killed, flag on)
             kind = res.split(":")[0]
             if kind in ("ok", "killed"):
                 real = int(res.split(":")[-1])
@@ -277,6 +283,8 @@ def oracles(cfgs0, sq, stats):
             # C20_counters_agree on the implementation
             if not (s["ttimes"] == s["errnum"] == len(s["cfgs"]) and len(s["errs"]) == min(3, s["errnum"])):
                 bad("C20_counters_agree", k, "GetTotalBackoffTimes %d, ErrorsNum %d, %d configs, %d latest errors" % (s["ttimes"], s["errnum"], len(s["cfgs"]), len(s["errs"])))
+            if s["keep"] != keepf.get(i, 0):
+                bad("C20_keepgoing_flag", k, "keepGoingWhenKilled is %d, the history (KeepGoingWhenKilled / Fork / Clone inherit, merge leaves) says %d" % (s["keep"], keepf.get(i, 0)))
             if (s["ctx"] != ctx_of[i] or s["vars"] != (-1 if vars_of[i] is None else vars_of[i]) or s["killed"] != want_k
                     or s["ttimes"] != sum(s["times"].values()) or s["text"] != want_text):
                 bad("C20_getters", k, "GetCtx/GetVars/CheckKilled/GetTotalBackoffTimes/String disagree with the history: %s" %
